@@ -17,6 +17,27 @@ CHECKS = {
    "Same engine as C01 with tag-heavy histories (tags on first/last sample of a commit, either side of the wrap, consume(0), partial consumes); every read window's tag list is compared with the model's, in commit order.",
    "Single-threaded histories; tag positions < n as the contract requires.",
    "deterministic simulation: seeded op-history search vs reference model", "5/C02"),
+
+ "C08": ("rig", "exploration",
+   "Every registered library block (53 adapters) is run twice on real streams from one seed: one-shot delivery with ample space, and a seeded drip-feed schedule on 1-3 page streams pre-rolled to seeded wrap offsets (feed 1..k, drain 0..j, outputs held full, input larger than output space). Outputs must be bit-identical (NaNs canonicalised), and neither run may panic or fail.",
+   "The harness is the block's only peer; constructor preconditions respected; sampling, not enumeration.",
+   "deterministic simulation: seeded drip-feed schedules (environment faults: full outputs, tiny feeds, wrap offsets), A/B output identity", "5/C08"),
+ "C09": ("rig", "exploration",
+   "Same environment; every work() call is audited: no live stream window or extra handle afterwards, a wait verdict without activity must name an unsatisfied stream and is probed by providing exactly what was asked for, idle 'Again' is probed by calling again with an unchanged environment (at most 4 in a row), and after the inputs are dropped (peer-gone fault) and drained the block must retire within 4 calls (EOF, eof(), or a true wait() on an ended input evaluated in virtual time).",
+   "Verdicts after a call that moved data are treated as hints, not claims. Pending/WaitForFunc accepted as documented.",
+   "deterministic simulation: seeded drip-feed schedules + peer-drop fault, per-call verdict oracle with virtual-time wait probes", "5/C09"),
+ "C10": ("rig", "exploration",
+   "Blocks with an exactly specified function are compared, under both one-shot and chunked delivery, with independent executable specifications written from the documentation (values and exact counts).",
+   "The input dimension is ordinary seeded generation (all byte values, float specials, boundary lengths); only the delivery schedule is simulation. Specifications are the harness author's reading of the docs.",
+   "seeded generation + reference model under simulated delivery schedules", "5/C10"),
+ "C11": ("rig", "exploration",
+   "FIR, FFT filter (complex and real), Hilbert, single-pole IIR, quadrature demodulators are compared with f64 reference arithmetic within stated rounding bounds under both delivery modes; decimation phase is anchored at sample 0.",
+   "Rounding bounds: 64*eps*sum|tap*x| for dot products, 32*eps*log2(N)*sum|taps|*max|x| for FFT convolution. Scalar build only unless the AVX flavour is built (thorough).",
+   "seeded generation + f64 reference under simulated delivery schedules", "5/C11"),
+ "C12": ("rig", "exploration",
+   "Inputs carry tags at seeded absolute indices (clustered where the drip schedule cuts); output tags are collected at consume time and compared as a multiset with the mapped input tags (identity, +delay, -skip, index/decimation) plus the tags each block is specified to add.",
+   "Tags are attributed to absolute sample indices by the harness; stream-level tag semantics are C02.",
+   "deterministic simulation: seeded drip-feed schedules with tags at chunk boundaries, multiset oracle", "5/C12"),
 }
 PENDING_REASON = "check not built yet in this session (planned in DESIGN.md section 5); not a claim that the property is out of reach"
 
@@ -50,6 +71,7 @@ def main():
             "add_only": True,
         },
         "engines": [
+            {"name": "rig", "path": "sim/src/rig.rs, sim/src/blocks.rs, sim/src/rigcheck.rs", "serves_properties": ["C08", "C09", "C10", "C11", "C12"], "kind_free_text": "drip-feed environment for one block: harness owns all peers of a real block on real streams; seeded feed/drain/work schedules; virtual time"},
             {"name": "bufsim", "path": "sim/src/bufsim.rs", "serves_properties": ["C01", "C02"], "kind_free_text": "seeded single-thread op-history simulator over Buffer<T> with a deque reference model"},
         ],
         "checks": checks,
